@@ -226,6 +226,7 @@ class Client:
         self.ios = 0
         self.opens = 0
         self.pending = []      # faults armed for the current attempt
+        self.burst = [0, "EIO"]
         self.fired = []
         self.io_enabled = True
         self.waiting_lock = False
@@ -290,7 +291,13 @@ class Client:
                 self.pending.remove(f)
                 self.fired.append(f)
                 w.fault_fired(self, f, ("io", what))
-                raise seams.read_error()
+                # a transient condition may persist over the next few reads
+                self.burst = [int(f.get("burst", 1)) - 1, f.get("exc", "EIO")]
+                raise seams.read_error(self.burst[1])
+        if what == "read" and self.burst[0] > 0:
+            self.burst[0] -= 1
+            w.probe("io_burst_reads")
+            raise seams.read_error(self.burst[1])
         w.sched.decide(self.idx, [self.idx, self.op["id"], self.k], in_lib=True)
 
     def on_open(self, name):
@@ -419,6 +426,7 @@ class Client:
         self.opens = 0
         self.pending = [dict(f) for f in faults]
         self.fired = []
+        self.burst = [0, "EIO"]
         rec = {"client": self.idx, "op_id": op["id"], "op": op, "kind": op["op"],
                "seq0": w.next_seq(), "retry": retry_of is not None,
                "armed": len(faults)}
@@ -1023,6 +1031,11 @@ class World:
                 self.violation("I1-arg-mutated", rec, "functional call changed an input tensor")
         if args["lo"].tobytes() != args["lo0"] or args["hi"].tobytes() != args["hi0"]:
             self.violation("I1-arg-mutated", rec, "functional call changed a filter array it was given")
+        for arr, before in args.get("given", ()):
+            if arr.tobytes() != before:
+                self.violation("I1-arg-mutated", rec,
+                               "a filter helper changed an array it was given (the loader's own array)")
+                break
         self.live_args.append((rec, bases, None))
         if status == "ok":
             rec["out_snap"] = snap(val)
@@ -1273,7 +1286,67 @@ def select_backward(torch, outputs, leaves, op):
 # ---- functional API ---------------------------------------------------------
 
 FUNCS = ["afb2d", "sfb2d", "afb2d_nonsep", "sfb2d_nonsep", "afb2d_atrous", "afb1d", "sfb1d",
-         "cplxdual2D"]
+         "cplxdual2D", "prepfn"]
+
+_FILT_PARAM = __import__("re").compile(r"^(h|g)\d?[a-z]?(_(col|row))?$|^(h|g)$|filt")
+_PREPFNS = {}
+
+
+def filter_functions(L):
+    """Public module-level functions of the library all of whose required
+    parameters are named like filters (the prep_filt_* helpers and whatever a
+    change under test adds next to them): callable with the arrays a table
+    loader returns.  Sorted (module, name) list, cached per library code."""
+    import inspect
+    key = id(L.pw)
+    if key in _PREPFNS:
+        return _PREPFNS[key]
+    out = []
+    for mn in sorted(sys.modules):
+        if not mn.startswith("pytorch_wavelets") or mn.endswith(".coeffs"):
+            continue
+        m = sys.modules[mn]
+        for n, f in sorted(vars(m).items()):
+            if n.startswith("_") or not inspect.isfunction(f) or getattr(f, "__module__", None) != mn:
+                continue
+            try:
+                ps = list(inspect.signature(f).parameters.values())
+            except (TypeError, ValueError):
+                continue
+            req = [q.name for q in ps if q.default is q.empty
+                   and q.kind in (q.POSITIONAL_OR_KEYWORD, q.POSITIONAL_ONLY)]
+            if req and len(req) == len([q for q in ps if q.default is q.empty]) \
+                    and all(_FILT_PARAM.search(r) for r in req):
+                out.append((mn, n, req))
+    _PREPFNS[key] = out
+    return out
+
+
+def run_prepfn(L, op, a):
+    """A filter-preparing helper called with the arrays of a shipped table
+    exactly as the loader returned them (no copies: what a user does)."""
+    fns = filter_functions(L)
+    mn, n, req = fns[op["pick"] % len(fns)]
+    fn = getattr(sys.modules[mn], n)
+    ld = op["loader"]
+    call = {"biort": lambda c, x: c.biort(x), "level1": lambda c, x: c.level1(x),
+            "level1c": lambda c, x: c.level1(x, compact=True), "qshift": lambda c, x: c.qshift(x)}[ld]
+    arrs = call(L.coeffs, op["name"])
+    keys = tables.loader_keys(ld, op["name"])
+    by = dict(zip(keys, arrs)) if keys and len(keys) == len(arrs) else {}
+    args = []
+    for i, r in enumerate(req):
+        base = r.split("_")[0]
+        cands = [base]
+        if len(base) == 3 and base[2] in "cd":
+            cands.append(base[:2] + ("a" if base[2] == "c" else "b"))
+        cands += [base[:2] + "o", base[:2] + "a"]
+        arr = next((by[c] for c in cands if c in by), None)
+        if arr is None:
+            arr = arrs[i % len(arrs)]
+        args.append(arr)
+    a["given"] = [(x, x.tobytes()) for x in args if isinstance(x, np.ndarray)]
+    return fn(*args)
 
 
 def func_args(L, op):
@@ -1281,6 +1354,9 @@ def func_args(L, op):
     import pywt
     torch = L.torch
     fn = op["fn"]
+    if fn == "prepfn":
+        return {"bases": [], "tens": [], "lo": np.zeros(0), "hi": np.zeros(0),
+                "lo0": b"", "hi0": b""}
     wv = pywt.Wavelet(op["wave"])
     bases = []
     tens = []
@@ -1305,6 +1381,8 @@ def run_func(L, op, a):
     lo, hi = a["lo"], a["hi"]
     t = a["tens"]
     prep = op.get("prep", False)
+    if fn == "prepfn":
+        return run_prepfn(L, op, a)
     if fn == "afb2d":
         filts = ll.prep_filt_afb2d(lo, hi) if prep else (lo, hi)
         return ll.afb2d(t[0], filts, mode)
